@@ -114,6 +114,7 @@ def get_facts(config="default", repo=None):
     renamed.update(norm.rename_variants(facts))
     f = Facts(facts, repo)
     f.renamed_fns = renamed
+    f.successors = dict(norm.SUCCESSORS)
     norm.apply(f)
     return f, info
 
